@@ -76,7 +76,7 @@ func (t *vxRefTree) add(fs *vxFS, parent []string, name string, kind int, symExi
 	return elems
 }
 
-var vxWalkNames = []string{"a", "b", "..", "c d", "\xc3\xa9", "...", "L"} // "..." is an ordinary name (it exists nowhere in the tree)
+var vxWalkNames = []string{"a", "b", "..", "c d", "\xc3\xa9", "...", "L", "."} // "..." is an ordinary name (it exists nowhere in the tree)
 
 func vxQidAgrees(q Qid, n *vxRefNode) bool {
 	return vxAll(q.Path == n.d.in.ino, (q.Type&QTDIR != 0) == (n.kind == vxKDir), (q.Type&QTSYMLINK != 0) == (n.kind == vxKLink))
@@ -154,6 +154,12 @@ func vxH16Walk(dotu bool, nmax int) {
 			ccur = ccur[:len(ccur)-1]
 			cur = cur[:len(cur)-1]
 			objs = append(objs, t.find(ccur))
+			m++
+			continue
+		}
+		if nm == "." {
+			// "." inside a directory is that directory (the target, after a symbolic link); after a file it is nothing
+			objs = append(objs, here)
 			m++
 			continue
 		}
